@@ -94,22 +94,22 @@ Section PerFace.
 
   Lemma quad_faces_tris vs (qs : list fdata) : forall pre post,
     (forall d, In d qs -> fd_wf vs d) ->
-    mesh_tris (vs ++ pre ++ quad_verts ROps eps n o qs ++ post) (quad_faces (length (vs ++ pre)) qs) =
-    flat_map (fun d => map Some (quad_tris ROps eps n o (fd_t d) (col_of 1 (fd_s d)))) qs.
+    mesh_tris (vs ++ pre ++ quad_verts ROps eps qs ++ post) (quad_faces (length (vs ++ pre)) qs) =
+    flat_map (fun d => map Some (quad_tris ROps eps (fd_d d) (fd_t d) (col_of 1 (fd_s d)))) qs.
   Proof.
     induction qs as [|d r IH]; intros pre post Hwf; [reflexivity|].
     pose proof (Hwf d (or_introl eq_refl)) as Hd.
-    cbn [quad_faces flat_map]. unfold quad_verts. cbn [flat_map]. fold (quad_verts ROps eps n o r).
+    cbn [quad_faces flat_map]. unfold quad_verts. cbn [flat_map]. fold (quad_verts ROps eps r).
     unfold quad_faces1, quad_tris, quad_new, mkface, mesh_tris. cbn [map app].
-    set (P := int_points ROps eps n o (fd_t d) ((col_of 1 (fd_s d) + 2) mod 3)).
-    set (Q := int_points ROps eps n o (fd_t d) ((col_of 1 (fd_s d) + 0) mod 3)).
-    set (rest := quad_verts ROps eps n o r ++ post).
+    set (P := int_points ROps eps (fd_d d) (fd_t d) ((col_of 1 (fd_s d) + 2) mod 3)).
+    set (Q := int_points ROps eps (fd_d d) (fd_t d) ((col_of 1 (fd_s d) + 0) mod 3)).
+    set (rest := quad_verts ROps eps r ++ post).
     rewrite (app_assoc vs pre (P :: Q :: rest)).
     unfold lookup3 at 1 2. cbn [fget fst snd].
     rewrite !nth_at_length, !nth_at_Slength.
     rewrite !(nth_error_app_some (vs ++ pre) (P :: Q :: rest) _ _ (nth_error_app_some vs pre _ _ (fd_wf_nth vs d _ Hd))).
     do 2 (apply (f_equal2 cons); [reflexivity|]).
-    replace ((vs ++ pre) ++ P :: Q :: rest) with (vs ++ (pre ++ [P; Q]) ++ quad_verts ROps eps n o r ++ post)
+    replace ((vs ++ pre) ++ P :: Q :: rest) with (vs ++ (pre ++ [P; Q]) ++ quad_verts ROps eps r ++ post)
       by (unfold rest; rewrite <- !app_assoc; reflexivity).
     replace (S (S (length (vs ++ pre)))) with (length (vs ++ pre ++ [P; Q])) by (rewrite !app_length; cbn [length]; lia).
     apply (IH (pre ++ [P; Q]) post). intros d' Hd'. apply Hwf. right. exact Hd'.
@@ -117,22 +117,22 @@ Section PerFace.
 
   Lemma tri_faces_tris vs (ts : list fdata) : forall pre post,
     (forall d, In d ts -> fd_wf vs d) ->
-    mesh_tris (vs ++ pre ++ tri_verts ROps eps n o ts ++ post) (tri_faces (length (vs ++ pre)) ts) =
-    flat_map (fun d => map Some (cut_tris ROps eps n o (fd_t d) (col_of (-1) (fd_s d)))) ts.
+    mesh_tris (vs ++ pre ++ tri_verts ROps eps ts ++ post) (tri_faces (length (vs ++ pre)) ts) =
+    flat_map (fun d => map Some (cut_tris ROps eps (fd_d d) (fd_t d) (col_of (-1) (fd_s d)))) ts.
   Proof.
     induction ts as [|d r IH]; intros pre post Hwf; [reflexivity|].
     pose proof (Hwf d (or_introl eq_refl)) as Hd.
-    cbn [tri_faces flat_map]. unfold tri_verts. cbn [flat_map]. fold (tri_verts ROps eps n o r).
+    cbn [tri_faces flat_map]. unfold tri_verts. cbn [flat_map]. fold (tri_verts ROps eps r).
     unfold tri_faces1, cut_tris, tri_new, mkface, mesh_tris. cbn [map app].
-    set (P := int_points ROps eps n o (fd_t d) ((col_of (-1) (fd_s d) + 0) mod 3)).
-    set (Q := int_points ROps eps n o (fd_t d) ((col_of (-1) (fd_s d) + 2) mod 3)).
-    set (rest := tri_verts ROps eps n o r ++ post).
+    set (P := int_points ROps eps (fd_d d) (fd_t d) ((col_of (-1) (fd_s d) + 0) mod 3)).
+    set (Q := int_points ROps eps (fd_d d) (fd_t d) ((col_of (-1) (fd_s d) + 2) mod 3)).
+    set (rest := tri_verts ROps eps r ++ post).
     rewrite (app_assoc vs pre (P :: Q :: rest)).
     unfold lookup3 at 1. cbn [fget fst snd].
     rewrite !nth_at_length, !nth_at_Slength.
     rewrite !(nth_error_app_some (vs ++ pre) (P :: Q :: rest) _ _ (nth_error_app_some vs pre _ _ (fd_wf_nth vs d _ Hd))).
     apply (f_equal2 cons); [reflexivity|].
-    replace ((vs ++ pre) ++ P :: Q :: rest) with (vs ++ (pre ++ [P; Q]) ++ tri_verts ROps eps n o r ++ post)
+    replace ((vs ++ pre) ++ P :: Q :: rest) with (vs ++ (pre ++ [P; Q]) ++ tri_verts ROps eps r ++ post)
       by (unfold rest; rewrite <- !app_assoc; reflexivity).
     replace (S (S (length (vs ++ pre)))) with (length (vs ++ pre ++ [P; Q])) by (rewrite !app_length; cbn [length]; lia).
     apply (IH (pre ++ [P; Q]) post). intros d' Hd'. apply Hwf. right. exact Hd'.
@@ -159,16 +159,16 @@ Section Assemble.
 
   (* what one input row contributes: its index paired with each coordinate triangle of the per-face kernel *)
   Definition per_face (x : nat * fdata) : list (nat * option (tri R)) :=
-    map (fun t' => (fst x, Some t')) (slice_face_signs ROps eps n o (fd_s (snd x)) (fd_m (snd x)) (fd_t (snd x))).
+    map (fun t' => (fst x, Some t')) (slice_face_signs ROps eps (fd_d (snd x)) (fd_s (snd x)) (fd_m (snd x)) (fd_t (snd x))).
 
   Definition k_part (x : nat * fdata) : list (nat * option (tri R)) :=
     if inside (fd_s (snd x)) (fd_m (snd x)) then [(fst x, Some (fd_t (snd x)))] else [].
   Definition q_part (x : nat * fdata) : list (nat * option (tri R)) :=
     if is_quad (fd_s (snd x)) (fd_m (snd x))
-    then map (fun t' => (fst x, Some t')) (quad_tris ROps eps n o (fd_t (snd x)) (col_of 1 (fd_s (snd x)))) else [].
+    then map (fun t' => (fst x, Some t')) (quad_tris ROps eps (fd_d (snd x)) (fd_t (snd x)) (col_of 1 (fd_s (snd x)))) else [].
   Definition t_part (x : nat * fdata) : list (nat * option (tri R)) :=
     if is_tri (fd_s (snd x)) (fd_m (snd x))
-    then map (fun t' => (fst x, Some t')) (cut_tris ROps eps n o (fd_t (snd x)) (col_of (-1) (fd_s (snd x)))) else [].
+    then map (fun t' => (fst x, Some t')) (cut_tris ROps eps (fd_d (snd x)) (fd_t (snd x)) (col_of (-1) (fd_s (snd x)))) else [].
 
   Lemma parts_are_per_face x : k_part x ++ q_part x ++ t_part x = per_face x.
   Proof.
@@ -191,23 +191,23 @@ Section Assemble.
 
   Lemma zip_repeat2_quads (X : list (nat * fdata)) :
     zip (repeat2 (map fst X))
-        (flat_map (fun d => map Some (quad_tris ROps eps n o (fd_t d) (col_of 1 (fd_s d)))) (map snd X)) =
-    flat_map (fun x => map (fun t' => (fst x, Some t')) (quad_tris ROps eps n o (fd_t (snd x)) (col_of 1 (fd_s (snd x))))) X.
+        (flat_map (fun d => map Some (quad_tris ROps eps (fd_d d) (fd_t d) (col_of 1 (fd_s d)))) (map snd X)) =
+    flat_map (fun x => map (fun t' => (fst x, Some t')) (quad_tris ROps eps (fd_d (snd x)) (fd_t (snd x)) (col_of 1 (fd_s (snd x))))) X.
   Proof.
     induction X as [|x X IH]; [reflexivity|]. cbn [map repeat2 flat_map]. unfold quad_tris at 1 3. cbn [map app zip].
     f_equal. f_equal. exact IH.
   Qed.
   Lemma quad_tris_flat_length (X : list (nat * fdata)) :
     length (repeat2 (map fst X)) =
-    length (flat_map (fun d => map Some (quad_tris ROps eps n o (fd_t d) (col_of 1 (fd_s d)))) (map snd X)).
+    length (flat_map (fun d => map Some (quad_tris ROps eps (fd_d d) (fd_t d) (col_of 1 (fd_s d)))) (map snd X)).
   Proof.
     induction X as [|x X IH]; [reflexivity|]. cbn [map flat_map]. unfold repeat2 in *. cbn [flat_map].
     rewrite !app_length. unfold quad_tris at 1. cbn [map length]. rewrite IH. reflexivity.
   Qed.
   Lemma zip_tris (X : list (nat * fdata)) :
     zip (map fst X)
-        (flat_map (fun d => map Some (cut_tris ROps eps n o (fd_t d) (col_of (-1) (fd_s d)))) (map snd X)) =
-    flat_map (fun x => map (fun t' => (fst x, Some t')) (cut_tris ROps eps n o (fd_t (snd x)) (col_of (-1) (fd_s (snd x))))) X.
+        (flat_map (fun d => map Some (cut_tris ROps eps (fd_d d) (fd_t d) (col_of (-1) (fd_s d)))) (map snd X)) =
+    flat_map (fun x => map (fun t' => (fst x, Some t')) (cut_tris ROps eps (fd_d (snd x)) (fd_t (snd x)) (col_of (-1) (fd_s (snd x))))) X.
   Proof.
     induction X as [|x X IH]; [reflexivity|]. cbn [map flat_map]. unfold cut_tris at 1 3. cbn [map app zip].
     f_equal. exact IH.
@@ -223,8 +223,8 @@ Section Main.
     let kept := map (@fd_f R) (take fds (flatnonzero (inside_mask fds))) in
     let quads := take fds (flatnonzero (quad_mask fds)) in
     let tris := take fds (flatnonzero (tri_mask fds)) in
-    let qv := quad_verts ROps eps n o quads in
-    Forall (face_valid (length (vs ++ qv ++ tri_verts ROps eps n o tris)))
+    let qv := quad_verts ROps eps quads in
+    Forall (face_valid (length (vs ++ qv ++ tri_verts ROps eps tris)))
            (kept ++ quad_faces (length vs) quads ++ tri_faces (length vs + length qv) tris).
   Proof.
     intros Hd kept quads tris qv.
@@ -232,7 +232,7 @@ Section Main.
     { apply Forall_forall. intros f Hf. apply in_map_iff in Hf. destruct Hf as (d & <- & Hin). apply Hd. eapply take_In, Hin. }
     assert (Hq : forall d, In d quads -> face_valid (length vs) (fd_f d)) by (intros d Hin; apply Hd; eapply take_In, Hin).
     assert (Ht : forall d, In d tris -> face_valid (length vs) (fd_f d)) by (intros d Hin; apply Hd; eapply take_In, Hin).
-    assert (HL : length (vs ++ qv ++ tri_verts ROps eps n o tris) = length vs + 2 * length quads + 2 * length tris).
+    assert (HL : length (vs ++ qv ++ tri_verts ROps eps tris) = length vs + 2 * length quads + 2 * length tris).
     { unfold qv. rewrite !app_length, quad_verts_length, tri_verts_length. lia. }
     rewrite HL. apply Forall_app. split; [|apply Forall_app; split].
     - eapply Forall_impl; [|exact Hk]. intros f. apply face_valid_mono. lia.
@@ -249,11 +249,11 @@ Section Main.
     let kept := map (@fd_f R) (take fds kidx) in
     let quads := take fds qidx in
     let tris := take fds tidx in
-    let qv := quad_verts ROps eps n o quads in
-    let r := slice_fds ROps eps n o vs fds in
+    let qv := quad_verts ROps eps quads in
+    let r := slice_fds ROps eps vs fds in
     zip (mo_map r) (mesh_tris (mo_v r) (mo_f r)) =
     zip (kidx ++ repeat2 qidx ++ tidx)
-        (mesh_tris (vs ++ qv ++ tri_verts ROps eps n o tris)
+        (mesh_tris (vs ++ qv ++ tri_verts ROps eps tris)
                    (kept ++ quad_faces (length vs) quads ++ tri_faces (length vs + length qv) tris)).
   Proof.
     intros Hd kidx qidx tidx kept quads tris qv r.
@@ -281,9 +281,9 @@ Section Main.
   Theorem slice_fds_per_face vs (fds : list fdata) :
     (forall d, In d fds -> fd_wf vs d) ->
     Permutation
-      (zip (mo_map (slice_fds ROps eps n o vs fds))
-           (mesh_tris (mo_v (slice_fds ROps eps n o vs fds)) (mo_f (slice_fds ROps eps n o vs fds))))
-      (flat_map (per_face eps n o) (indexed fds)).
+      (zip (mo_map (slice_fds ROps eps vs fds))
+           (mesh_tris (mo_v (slice_fds ROps eps vs fds)) (mo_f (slice_fds ROps eps vs fds))))
+      (flat_map (per_face eps) (indexed fds)).
   Proof.
     intros Hwf.
     assert (Hval : forall d, In d fds -> face_valid (length vs) (fd_f d)).
@@ -307,14 +307,14 @@ Section Main.
     { intros d Hd. apply Hwf. unfold XQ, indexed in Hd. rewrite <- (filter_indexed pQ fds 0) in Hd. apply filter_In in Hd. apply Hd. }
     assert (WT : forall d, In d (map snd XT) -> fd_wf vs d).
     { intros d Hd. apply Hwf. unfold XT, indexed in Hd. rewrite <- (filter_indexed pT fds 0) in Hd. apply filter_In in Hd. apply Hd. }
-    set (qv := quad_verts ROps eps n o (map snd XQ)). set (tv := tri_verts ROps eps n o (map snd XT)).
+    set (qv := quad_verts ROps eps (map snd XQ)). set (tv := tri_verts ROps eps (map snd XT)).
     unfold mesh_tris. rewrite !map_app. fold (mesh_tris (vs ++ qv ++ tv) (map (@fd_f R) (map snd XK))).
     fold (mesh_tris (vs ++ qv ++ tv) (quad_faces (length vs) (map snd XQ))).
     fold (mesh_tris (vs ++ qv ++ tv) (tri_faces (length vs + length qv) (map snd XT))).
     rewrite (kept_tris vs (qv ++ tv) (map snd XK) WK).
-    pose proof (quad_faces_tris eps n o vs (map snd XQ) [] tv WQ) as HQ. cbn [app] in HQ. rewrite app_nil_r in HQ.
+    pose proof (quad_faces_tris eps vs (map snd XQ) [] tv WQ) as HQ. cbn [app] in HQ. rewrite app_nil_r in HQ.
     fold qv in HQ. rewrite HQ.
-    pose proof (tri_faces_tris eps n o vs (map snd XT) qv [] WT) as HT. rewrite app_nil_r in HT. rewrite app_length in HT.
+    pose proof (tri_faces_tris eps vs (map snd XT) qv [] WT) as HT. rewrite app_nil_r in HT. rewrite app_length in HT.
     fold tv in HT. rewrite HT.
     rewrite zip_app by (rewrite !map_length; reflexivity).
     rewrite zip_app.
@@ -368,26 +368,29 @@ Proof.
   intros Hvs. unfold slice_faces_plane. destruct vs as [|v0 vs0]; [congruence|]. cbn [length Nat.eqb].
   set (vs := v0 :: vs0) in *.
   destruct (mask_of (length fs) fi) as [mask|e] eqn:Em; cbn [rbind]; [|discriminate].
-  set (sg := map (fun v => vsign ROps tol (plane_dot ROps n o v)) vs).
-  destruct (resolve vs sg fs mask) as [fds|] eqn:Er; [|discriminate]. intros [= <-].
+  set (dots := map (snapped_dot ROps tol n o) vs). set (sg := map (vsign ROps tol) dots).
+  destruct (resolve vs dots sg fs mask) as [fds|] eqn:Er; [|discriminate]. intros [= <-].
   exists mask, fds. split; [reflexivity|].
-  pose proof (resolve_length _ _ _ _ _ (mask_of_length _ _ _ Em) Er) as Hl. split; [exact Hl|].
-  assert (Hrow : forall d, In d fds -> fd_wf vs d /\ fd_s d = tri_signs ROps tol n o (fd_t d)).
+  pose proof (resolve_length _ _ _ _ _ _ (mask_of_length _ _ _ Em) Er) as Hl. split; [exact Hl|].
+  assert (Hrow : forall d, In d fds -> fd_wf vs d /\ fd_d d = tri_dists ROps tol n o (fd_t d) /\
+                                      fd_s d = tri_signs ROps tol n o (fd_t d)).
   { intros d Hd. unfold resolve in Er. apply (all_some_In _ _ _ Er) in Hd. apply in_map_iff in Hd.
     destruct Hd as ((f & m) & Hres & _). unfold resolve1 in Hres. cbn [fst snd] in Hres.
-    destruct (lookup3 vs f) as [t|] eqn:El; [|discriminate]. unfold sg in Hres. rewrite lookup3_map, El in Hres.
-    cbn [option_map] in Hres. injection Hres as <-. unfold fd_wf. cbn [fd_f fd_t fd_s]. split; [exact El|].
-    destruct t as [[a b] c]. reflexivity. }
+    destruct (lookup3 vs f) as [t|] eqn:El; [|discriminate]. unfold sg, dots in Hres.
+    rewrite map_map, !lookup3_map, El in Hres.
+    cbn [option_map] in Hres. injection Hres as <-. unfold fd_wf. cbn [fd_f fd_t fd_s fd_d]. split; [exact El|].
+    destruct t as [[a b] c]. split; reflexivity. }
   split.
   - intros i d Hi. unfold resolve in Er. pose proof (all_some_nth _ _ _ _ Er Hi) as Hn.
     rewrite nth_error_map in Hn. destruct (nth_error (zip fs mask) i) as [[f m]|] eqn:Ez; [|discriminate].
     cbn [option_map] in Hn. injection Hn as Hn. apply nth_error_zip in Ez. destruct Ez as [Ef Emk].
     unfold resolve1 in Hn. cbn [fst snd] in Hn. destruct (lookup3 vs f) as [t|] eqn:El; [|discriminate].
-    destruct (lookup3 sg f); [|discriminate]. injection Hn as <-. cbn [fd_f fd_m fd_t]. auto.
+    destruct (lookup3 dots f); [|discriminate]. destruct (lookup3 sg f); [|discriminate].
+    injection Hn as <-. cbn [fd_f fd_m fd_t]. auto.
   - eapply Permutation_trans; [apply slice_fds_per_face; intros d Hd; apply Hrow, Hd|].
     apply Permutation_refl'. apply flat_map_ext_in'. intros x Hx. unfold per_face, slice_face.
     destruct x as [i d]. apply zip_In in Hx. destruct Hx as [_ Hd]. cbn [fst snd].
-    rewrite (proj2 (Hrow d Hd)). reflexivity.
+    destruct (Hrow d Hd) as (_ & E1 & E2). rewrite E1, E2. reflexivity.
 Qed.
 
 (* ---- corollaries: the multiset of returned coordinate triangles depends only on the rows (coordinates, mask bit),
@@ -406,29 +409,29 @@ Proof.
   fold (indexed_from (S i) r). rewrite IH. reflexivity.
 Qed.
 
-Definition row_tris (eps : R) (n o : vec3 R) (row : tri R * sgn3 * bool) : list (option (tri R)) :=
-  map Some (slice_face_signs ROps eps n o (snd (fst row)) (snd row) (fst (fst row))).
-Definition fd_row (d : @fdata R) : tri R * sgn3 * bool := (fd_t d, fd_s d, fd_m d).
+Definition row_tris (eps : R) (row : tri R * (R * R * R) * sgn3 * bool) : list (option (tri R)) :=
+  map Some (slice_face_signs ROps eps (snd (fst (fst row))) (snd (fst row)) (snd row) (fst (fst (fst row)))).
+Definition fd_row (d : @fdata R) : tri R * (R * R * R) * sgn3 * bool := (fd_t d, fd_d d, fd_s d, fd_m d).
 
-Lemma slice_fds_triangles eps n o vs (fds : list (@fdata R)) : (forall d, In d fds -> fd_wf vs d) ->
-  Permutation (mesh_tris (mo_v (slice_fds ROps eps n o vs fds)) (mo_f (slice_fds ROps eps n o vs fds)))
-              (flat_map (row_tris eps n o) (map fd_row fds)).
+Lemma slice_fds_triangles eps vs (fds : list (@fdata R)) : (forall d, In d fds -> fd_wf vs d) ->
+  Permutation (mesh_tris (mo_v (slice_fds ROps eps vs fds)) (mo_f (slice_fds ROps eps vs fds)))
+              (flat_map (row_tris eps) (map fd_row fds)).
 Proof.
-  intros Hwf. pose proof (slice_fds_per_face eps n o vs fds Hwf) as H.
+  intros Hwf. pose proof (slice_fds_per_face eps vs fds Hwf) as H.
   apply (Permutation_map snd) in H. rewrite map_snd_zip in H.
   2:{ unfold mesh_tris. rewrite map_length. apply slice_fds_mapping_len. }
-  assert (E : map snd (flat_map (per_face eps n o) (indexed fds)) = flat_map (row_tris eps n o) (map fd_row fds)).
-  { rewrite map_flat_map. unfold per_face. rewrite (flat_map_concat_map (row_tris eps n o)), map_map, <- flat_map_concat_map.
-    unfold indexed. rewrite <- (flat_map_indexed_snd (fun d => row_tris eps n o (fd_row d)) fds 0).
+  assert (E : map snd (flat_map (per_face eps) (indexed fds)) = flat_map (row_tris eps) (map fd_row fds)).
+  { rewrite map_flat_map. unfold per_face. rewrite (flat_map_concat_map (row_tris eps)), map_map, <- flat_map_concat_map.
+    unfold indexed. rewrite <- (flat_map_indexed_snd (fun d => row_tris eps (fd_row d)) fds 0).
     apply flat_map_ext. intros x. rewrite map_map. reflexivity. }
   rewrite E in H. exact H.
 Qed.
 
-Theorem slice_perm_relabel_invariant eps n o vs vs' (fds fds' : list (@fdata R)) :
+Theorem slice_perm_relabel_invariant eps vs vs' (fds fds' : list (@fdata R)) :
   (forall d, In d fds -> fd_wf vs d) -> (forall d, In d fds' -> fd_wf vs' d) ->
   Permutation (map fd_row fds) (map fd_row fds') ->
-  Permutation (mesh_tris (mo_v (slice_fds ROps eps n o vs fds)) (mo_f (slice_fds ROps eps n o vs fds)))
-              (mesh_tris (mo_v (slice_fds ROps eps n o vs' fds')) (mo_f (slice_fds ROps eps n o vs' fds'))).
+  Permutation (mesh_tris (mo_v (slice_fds ROps eps vs fds)) (mo_f (slice_fds ROps eps vs fds)))
+              (mesh_tris (mo_v (slice_fds ROps eps vs' fds')) (mo_f (slice_fds ROps eps vs' fds'))).
 Proof.
   intros H1 H2 Hp. eapply Permutation_trans; [apply slice_fds_triangles, H1|].
   eapply Permutation_trans; [|apply Permutation_sym, slice_fds_triangles, H2].
